@@ -376,6 +376,18 @@ func TestVerifC24RequestPath(t *testing.T) {
 		if err != nil {
 			rt.Fatalf("Encode(%s): %v", verifC24Show(r.msg), err)
 		}
+		// An encoded document belongs to the caller (it is queued for the socket
+		// while other replies are being encoded): later Encode calls must not
+		// change it.
+		ownCopy := append([]byte(nil), own...)
+		for i := rapid.IntRange(1, 3).Draw(rt, "encodesInBetween"); i > 0; i-- {
+			if _, err := Encode(verifC24Request(rt).msg); err != nil {
+				rt.Fatalf("Encode of a second message: %v", err)
+			}
+		}
+		if !bytes.Equal(own, ownCopy) {
+			rt.Fatalf("the bytes returned by Encode changed after later Encode calls:\n before %s\n after  %s", ownCopy, own)
+		}
 		client := verifC24ClientJSON(rt, r)
 		for name, doc := range map[string][]byte{"package encoding": own, "client encoding": client} {
 			if !json.Valid(doc) {
@@ -594,6 +606,15 @@ func TestVerifC24ResponsePath(t *testing.T) {
 		}
 		if verifC24Show(f) != snapshot {
 			rt.Fatalf("FromFrame/Encode modified the frame")
+		}
+		docCopy := append([]byte(nil), doc...)
+		if f2, _ := verifC24ResponseFrame(rt); f2 != nil {
+			if m2, err := FromFrame(verifC24ID().Draw(rt, "replyID2"), f2); err == nil {
+				_, _ = Encode(m2)
+			}
+		}
+		if !bytes.Equal(doc, docCopy) {
+			rt.Fatalf("the bytes returned by Encode changed after a later Encode call:\n before %s\n after  %s", docCopy, doc)
 		}
 		dec := json.NewDecoder(bytes.NewReader(doc))
 		dec.UseNumber()
